@@ -7,9 +7,12 @@
 
 """Util functions to handle random seeds."""
 
+import threading
 from contextlib import contextmanager
 
 import numpy as np
+
+_SEED_LOCK = threading.RLock()
 
 
 @contextmanager
@@ -24,12 +27,15 @@ def set_random_seed(seed: int | None = None):
         value = np.random.random()
     """
     if seed is not None:
-        previous_state = np.random.get_state()
-        try:
-            np.random.seed(seed)
-            yield
-        finally:
-            np.random.set_state(previous_state)
+        # The generator is process-wide: seeded regions of different threads
+        # must not overlap (a re-entrant lock allows nested regions)
+        with _SEED_LOCK:
+            previous_state = np.random.get_state()
+            try:
+                np.random.seed(seed)
+                yield
+            finally:
+                np.random.set_state(previous_state)
     else:
         # Do nothing
         yield
